@@ -217,7 +217,30 @@ def _devnull():
     return open(os.devnull, "r+b")
 
 
-def run_proc(argv, env, stdin=b"", timeout=20, cwd="/", extra_fds=None, stdin_file=None):
+def stuck_with_zombies(pid):
+    """A process that sleeps while dead children of its own wait to be reaped will never get another SIGCHLD for them: if that state is
+    found when the watchdog expires (i.e. it has lasted for the whole watchdog period), the process is stuck for good - a deterministic
+    diagnosis of a hang, unlike the expiry itself. -> number of zombie children if the process sleeps, else 0."""
+    try:
+        st = open("/proc/%d/stat" % pid).read().rsplit(")", 1)[1].split()
+        if st[0] != "S":
+            return 0
+        n = 0
+        for d in os.listdir("/proc"):
+            if not d.isdigit():
+                continue
+            try:
+                f = open("/proc/%s/stat" % d).read().rsplit(")", 1)[1].split()
+            except (OSError, IndexError):
+                continue
+            if f[0] == "Z" and int(f[1]) == pid:
+                n += 1
+        return n
+    except (OSError, IndexError, ValueError):
+        return 0
+
+
+def run_proc(argv, env, stdin=b"", timeout=20, cwd="/", extra_fds=None, stdin_file=None, on_timeout=None):
     """Run a program to completion with `stdin` bytes. Children never inherit the check's stdout/stderr.
     Returns (status, stdout_bytes, stderr_bytes); status < 0 = killed by that signal; None = watchdog expired
     (always to be counted as inconclusive, never as a violation)."""
@@ -237,6 +260,8 @@ def run_proc(argv, env, stdin=b"", timeout=20, cwd="/", extra_fds=None, stdin_fi
                 rc = p.wait(timeout=timeout)
             except subprocess.TimeoutExpired:
                 rc = None
+                if on_timeout is not None:
+                    on_timeout(p.pid)
             try:
                 os.killpg(p.pid, signal.SIGKILL)
             except ProcessLookupError:
